@@ -1055,7 +1055,10 @@ def adapt_typehints(
             val = parser.parse_object(val, defaults=sub_defaults.get() or list_item)
         elif isinstance(val, NestedArg):
             prev_val = prev_val if isinstance(prev_val, Namespace) else None
-            val = parser.parse_args([f"--{val.key}={val.val}"], namespace=prev_val)
+            nested_val = val.val
+            if isinstance(orig_val, NestedArg) and orig_val.key == val.key and isinstance(orig_val.val, str):
+                nested_val = orig_val.val  # the text as given, not str() of what it was loaded as
+            val = parser.parse_args([f"--{val.key}={nested_val}"], namespace=prev_val)
         else:
             raise_unexpected_value(f"Type {typehint} expects a dict or Namespace", val)
 
